@@ -55,6 +55,11 @@ def correspond(ctx):
     ctx.samples += [c.meta["text"] for c in cases[:3]]
     ctx.coverage["distinct_nontrivial"] = len({c.meta["text"] for c in cases})
     core.eval_cases(ctx, "K-ace-fixpoint", IMPORTS, cases, chunk=max(10, len(cases) // 16 + 1))
+    # how many explored lines give an entry inside the class of the fixed-point theorem (C06_checked)?
+    exprs = [c.model.replace("run_ace_twice", "ace_in_class", 1) for c in cases]
+    ctx.coverage["entries_in_class_of_C06_checked"] = core.count_true(ctx, "K-ace-fixpoint-class", core.CLASS_IMPORTS, exprs,
+                                                                      chunk=max(10, len(exprs) // 16 + 1))
+    ctx.coverage["entries_total"] = len(exprs)
     # the implementation at every level, on everything generated
     for c in cases:
         f = oracle(ctx, "K-ace-fixpoint", c.meta)
